@@ -64,25 +64,25 @@ package requests
 //@   safety C18
 //@   requires r != nil
 //@   pure
-//@   ensures[C05.commitvalid] result == nil ==> r.ParticipantId >= 0 && len(r.Commit) > 0
+//@   ensures[C05.commitvalid,C10.step.commitvalid] result == nil ==> r.ParticipantId >= 0 && len(r.Commit) > 0
 
 //@ func (*DKGProposalDealConfirmationRequest).Validate
 //@   safety C18
 //@   requires r != nil
 //@   pure
-//@   ensures[C05.dealvalid] result == nil ==> r.ParticipantId >= 0 && len(r.Deal) > 0
+//@   ensures[C05.dealvalid,C10.step.dealvalid] result == nil ==> r.ParticipantId >= 0 && len(r.Deal) > 0
 
 //@ func (*DKGProposalResponseConfirmationRequest).Validate
 //@   safety C18
 //@   requires r != nil
 //@   pure
-//@   ensures[C05.responsevalid] result == nil ==> r.ParticipantId >= 0 && len(r.Response) > 0
+//@   ensures[C05.responsevalid,C10.step.responsevalid] result == nil ==> r.ParticipantId >= 0 && len(r.Response) > 0
 
 //@ func (*DKGProposalMasterKeyConfirmationRequest).Validate
 //@   safety C18
 //@   requires r != nil
 //@   pure
-//@   ensures[C05.mkvalid] result == nil ==> r.ParticipantId >= 0 && len(r.MasterKey) > 0
+//@   ensures[C05.mkvalid,C10.step.mkvalid] result == nil ==> r.ParticipantId >= 0 && len(r.MasterKey) > 0
 
 //@ func (*DKGProposalConfirmationErrorRequest).Validate
 //@   safety C18
